@@ -23,7 +23,7 @@ CLAIMED = {
 }
 
 # ids whose check has been reviewed by the lead, passes on /repo and is registered
-INTEGRATED = ["C01", "C03", "C05", "C06", "C08", "C09", "C10", "C11", "C12", "C13", "C14", "C15", "C16", "C17", "C18", "C19", "C20"]
+INTEGRATED = ["C%02d" % i for i in range(1, 21)]
 
 PENDING_REASON = "check not built yet in this round (model and proofs in progress; see DESIGN.md §9 build order)"
 
